@@ -83,6 +83,7 @@ def parseSysOp (o : OState) : List String → Option Sys.Op
     if st.startsWith "sig" then some (.exit base st false) else some (.exit base s!"code{st}" (st == "0"))
   | ["sleep", _] => some .nop
   | "hook" :: _ => some .nop
+  | ["release", _] => some .nop     -- a held Exec call returns: the launch loop is one step of the model
   | ["reset", reason] => some (.reset reason)
   | ["shutdown"] => some .shutdown
   | _ => none
